@@ -104,6 +104,11 @@ def case_fn(case):
         # whole fitted segment
         kw.update(range_x=[case["cp"] - 0.8 * DEPTH,
                            case["cp"] + 0.5 * XSTART])
+    elif rng_kind == "indent":
+        # the indented part only: the interval does not contain the
+        # contact point
+        kw.update(range_x=[case["cp"] - 0.95 * DEPTH,
+                           case["cp"] - 0.15 * DEPTH])
     elif rng_kind == "rel":
         kw.update(range_x=[-0.8 * DEPTH, 0.5 * XSTART],
                   range_type="relative cp")
@@ -221,7 +226,7 @@ def cases(tier):
         if c["noise"] == 0.0 and c["method"] == "leastsq" \
                 and c["corner"] in ([0, 0, 0], [1, 1, 1]) \
                 and (tier != "quick" or c["baseline"] == 2e-10):
-            for rk in ("abs", "rel"):
+            for rk in ("abs", "rel", "indent"):
                 d = dict(c)
                 d["range"] = rk
                 sub.append(d)
